@@ -129,7 +129,9 @@ def gen(rng, tier, index):
                     edits.append(["derive", tags[i], tags[i + 1]])
             k0 = rng.randrange(0, max(1, len(ops) // 2))
             ops = ops[:k0] + build + edits + ops[k0:]
-        return dict(base, mode="seq", ops=ops)
+        # 25%: the multimethod is created WITHOUT :hierarchy and the 2-arity derive/underive change the
+        # process-wide hierarchy (restored after the run); 25%: a custom default dispatch value
+        return dict(base, mode="seq", ops=ops, use_global=rng.random() < 0.25, custom_default=rng.random() < 0.25)
     if rng.random() < 0.35:
         # scenario bias: one edge x->y toggled while callers keep asking for x (and y has a method),
         # so cached answers for x become wrong exactly while lookups are in flight
@@ -368,10 +370,16 @@ class World:
             _VIRTUAL.add(("K2", "K0"))
         self.obj = {n: kw.keyword(n, ns="v") for n in KWS}
         self.obj.update(K0=K0, K1=K1, K2=K2, zz=kw.keyword("zz", ns="v"))
-        self.obj[DEFAULT] = kw.keyword("default")
+        self.obj[DEFAULT] = kw.keyword("fallback", ns="v") if workload.get("custom_default") else kw.keyword("default")
         self.rev = {id(v): n for n, v in self.obj.items()}
         self.rev[id(object)] = "object"
-        self.hier = _st["Atom"](_fns["make-hierarchy"]())
+        self.use_global = bool(workload.get("use_global"))
+        if self.use_global:
+            # the process-wide hierarchy Var; only used by single-task (sequential) runs, restored by close()
+            self.hier = _st["rt"].Var.find_safe(_st["sym"].symbol("global-hierarchy", ns="basilisp.core"))
+            self.saved_global = self.hier.deref()
+        else:
+            self.hier = _st["Atom"](_fns["make-hierarchy"]())
         self.ncalls = 0
         self.throw_at = workload.get("throw_dispatch")
         self.faults = {}
@@ -386,7 +394,12 @@ class World:
         return v
 
     def new_mf(self, dispatch=None):
-        return _st["MF"](_st["sym"].symbol("verif-mf"), dispatch or self.dispatch, self.obj[DEFAULT], self.hier)
+        return _st["MF"](_st["sym"].symbol("verif-mf"), dispatch or self.dispatch, self.obj[DEFAULT],
+                         None if self.use_global else self.hier)
+
+    def close(self):
+        if self.use_global:
+            self.hier.bind_root(self.saved_global)
 
     def method_for(self, key):
         return lambda v, _k=key: ("M", _k)
@@ -405,6 +418,10 @@ class World:
                 _fns["remove-all-methods"](mf)
             elif t == "prefer":
                 _fns["prefer-method"](mf, o[op[1]], o[op[2]])
+            elif t == "derive" and self.use_global:
+                _fns["derive"](o[op[1]], o[op[2]])
+            elif t == "underive" and self.use_global:
+                _fns["underive"](o[op[1]], o[op[2]])
             elif t == "derive":
                 _fns["swap!"](self.hier, _fns["derive"], o[op[1]], o[op[2]])
             elif t == "underive":
@@ -448,24 +465,25 @@ class World:
 
 def _check_hierarchy(w, m):
     """O4: parents/ancestors/descendants/isa? against the closure model."""
-    h = w.hier.deref()
+    # the explicit-hierarchy arities, or (process-wide hierarchy) the arities that take no hierarchy
+    hargs = () if w.use_global else (w.hier.deref(),)
     tags = KWS + CLS
     for t in tags:
         want_p = {b for a, b in m.edges if a == t} | (_bases(t) if _is_cls(t) else set())
-        got_p = w.names(_fns["parents"](h, w.obj[t]))
+        got_p = w.names(_fns["parents"](*hargs, w.obj[t]))
         if got_p != want_p:
             return ("parents", t, sorted(want_p), sorted(got_p))
         want_a = m.closure(t) | (_supers(t) if _is_cls(t) else set())
-        got_a = w.names(_fns["ancestors"](h, w.obj[t]))
+        got_a = w.names(_fns["ancestors"](*hargs, w.obj[t]))
         if got_a != want_a:
             return ("ancestors", t, sorted(want_a), sorted(got_a))
         if not _is_cls(t):
             want_d = {x for x in tags if t in m.closure(x)}
-            got_d = w.names(_fns["descendants"](h, w.obj[t]))
+            got_d = w.names(_fns["descendants"](*hargs, w.obj[t]))
             if got_d != want_d:
                 return ("descendants", t, sorted(want_d), sorted(got_d))
         for u in tags:
-            if bool(_fns["isa?"](h, w.obj[t], w.obj[u])) != m_isa(m, t, u):
+            if bool(_fns["isa?"](*hargs, w.obj[t], w.obj[u])) != m_isa(m, t, u):
                 return ("isa?", (t, u), m_isa(m, t, u), not m_isa(m, t, u))
     return None
 
@@ -534,7 +552,10 @@ def _run_seq(workload, k):
                 return
 
     k.spawn(body, name="T0")
-    k.run()
+    try:
+        k.run()
+    finally:
+        w.close()
     kv = R.kernel_failure_verdict(ID, k)
     if kv is not None:
         kv["faults"] = w.faults
